@@ -3,6 +3,7 @@ import KdVerif.Props.C01
 import KdVerif.Proofs.ContainerV2
 import KdVerif.Proofs.Dict
 import KdVerif.Proofs.EndToEnd
+import KdVerif.Proofs.PyIRRdKd
 /-
   C02 — a version-2 dump yields exactly its records, in order, and its thread map.
 
@@ -260,5 +261,60 @@ example : EndToEnd.formattedTraces EndToEnd.exEnv {} {} EndToEnd.noPlist (encode
     right, but the trace layer receives ONE event instead of two. -/
 example : (EndToEnd.dumpOf EndToEnd.noPlist (encodeV2 k1File2)).toOption.map (fun p => p.1.events.length) = some 1 := by
   decide +kernel
+
+/-! ### Translation tie: the source text of `parse`, `parse_v2` and `set_thread_map`
+
+  `tools/gen_pyir_rd.py` translates `kd_buf_parser.py` (pure `ast`) into the Python-subset IR of `Model/PyIRRd` on every
+  run (`Gen/PyIRRd.lean`); `PyIRRd.exec` is a big-step interpreter over the model's positional reader (same read calls,
+  same counters), with the `construct` parsers as primitives and `from_kd_buf` as a parameter. -/
+
+/-- **The translated source is the program the refinement lemmas were proved for** (`Spec/PyIRRdExpected`, quoting the
+    Python), and the translator met nothing outside the subset. -/
+theorem source_is_expected_ir : Gen.PyIRRd.prog = PyIRRd.Expected.prog ∧ Gen.PyIRRd.notes = [] := by decide
+
+/-- **`set_thread_map`, interpreted, is `setThreadMap`**: both tables are cleared first (no residue of an earlier
+    parse, whatever they held), then filled in file order, a later entry of a tid / pid overwriting an earlier one. -/
+theorem set_thread_map_ir_eq_model (l : List ThreadEntry) (t : Tables) :
+    PyIRRd.execTm l Gen.PyIRRd.prog.setThreadMap t = .ok (setThreadMap t l) := by
+  rw [source_is_expected_ir.1]; exact PyIRRd.execTm_expected l t
+
+/-- **`parse`, interpreted**: four bytes are read, the version-2 magic selects `parse_v2`, the version-3 magic
+    `parse_v3`, anything else is the `KeyError` of the dict lookup (`none`). -/
+theorem parse_dispatch_ir_eq_model (data : Bytes) :
+    PyIRRd.runDispatch Gen.PyIRRd.prog.parse data =
+      .ok ((if ((Reader.ofBytes data).read Gen.Consts.RAW_VERSION_SIZE).1 = Gen.Consts.RAW_VERSION2_BYTES then some .parseV2
+            else if ((Reader.ofBytes data).read Gen.Consts.RAW_VERSION_SIZE).1 = Gen.Consts.RAW_VERSION3_BYTES then some .parseV3
+            else none),
+           ((Reader.ofBytes data).read Gen.Consts.RAW_VERSION_SIZE).2) := by
+  rw [source_is_expected_ir.1]; exact PyIRRd.runDispatch_expected data
+
+/-- **`parse_v2`, interpreted, is `parseV2`** — for EVERY reader state (any bytes, well-formed or not) and any prior
+    table contents: the same events in the same order, the same final exception, the same tables, the same reader
+    position and read counters (so the interpreted source makes exactly the model's `read` calls). -/
+theorem parse_v2_ir_eq_model (plist : Bytes → Option PView) (prior : Tables) (hdr : Option (List Nat × Bytes))
+    (r : Reader) (g : r.pos ≤ r.data.length) :
+    (PyIRRd.runGen (Gen.PyIRRd.prog.params fromKdBuf plist) Gen.PyIRRd.prog.parseV2 prior hdr r).events =
+        (parseV2 fromKdBuf prior r).events ∧
+    (PyIRRd.runGen (Gen.PyIRRd.prog.params fromKdBuf plist) Gen.PyIRRd.prog.parseV2 prior hdr r).err =
+        (parseV2 fromKdBuf prior r).err ∧
+    (PyIRRd.runGen (Gen.PyIRRd.prog.params fromKdBuf plist) Gen.PyIRRd.prog.parseV2 prior hdr r).tables =
+        (parseV2 fromKdBuf prior r).tables ∧
+    (PyIRRd.runGen (Gen.PyIRRd.prog.params fromKdBuf plist) Gen.PyIRRd.prog.parseV2 prior hdr r).rd =
+        (parseV2 fromKdBuf prior r).rd := by
+  rw [source_is_expected_ir.1]
+  obtain ⟨a, b, c, d, _⟩ := PyIRRd.runGen_parseV2 fromKdBuf plist PyIRRd.kd_rejectsShort PyIRRd.kd_noHang prior hdr r g
+  exact ⟨a, b, c, d⟩
+
+/-- **The subject of every C02 theorem is the interpreted source**: `parse plist fromKdBuf prior data` (what
+    `v2_events_partial`, `v2_tables`, `e2e_…` speak about) equals the translated `parse` / `parse_v2` / `parse_v3` /
+    `seek_until` / `set_thread_map` run by the interpreter (+ the hand-modelled tail of `parse_v3`). -/
+theorem parse_is_interpreted_source (plist : Bytes → Option PView) (prior : PState) (data : Bytes) :
+    parse plist fromKdBuf prior data = PyIRRd.parseVia Gen.PyIRRd.prog plist fromKdBuf prior data :=
+  PyIRRd.parse_eq_parseVia_gen source_is_expected_ir plist prior data
+
+/-- non-vacuity: the generated program, interpreted, reads a two-thread version-2 dump -/
+example : ((PyIRRd.parseVia Gen.PyIRRd.prog EndToEnd.noPlist fromKdBuf ⟨Tables.empty, {}⟩ (encodeV2 exFile)).events.length,
+           (PyIRRd.parseVia Gen.PyIRRd.prog EndToEnd.noPlist fromKdBuf ⟨Tables.empty, {}⟩ (encodeV2 exFile)).err) =
+          (exFile.recs.length, none) := by decide +kernel
 
 end KdVerif.C02
